@@ -203,6 +203,10 @@ class Indicator(ABC):
 
     def calculate_index(self, start_index: int, end_index: Optional[int] = None):
         """Calculate the TA values, will calculate a index range the Candles, will re-calculate"""
+        if start_index < 0:
+            start_index += len(self.candles)
+        if end_index is not None and end_index < 0:
+            end_index += len(self.candles)
         end_index = end_index if end_index else start_index + 1
 
         self._calculate_sub_indicators(True, start_index, end_index)
